@@ -68,6 +68,9 @@ type Harness struct {
 	// WritesNothing: trusted frame - where this contract is used, the target is assumed to write no
 	// memory visible to the caller (listed as an assumption).
 	WritesNothing bool
+	// PureFuncParams: function-typed parameters of the target are pure (no effect, result a function of
+	// the arguments); checked syntactically for the closure handed over wherever the contract is used.
+	PureFuncParams bool
 	// InlineTargets: functions whose body is executed in this harness even though they have a contract.
 	InlineTargets map[*ssa.Function]bool
 }
@@ -390,6 +393,8 @@ func (P *Program) scanDirectives(pkg *packages.Package, f *ast.File) error {
 				P.callAsserts[tgt] = append(P.callAsserts[tgt], &callAssert{callee: fields[2], ordinal: n, fn: fn, label: fd.Name.Name})
 			case "writes-nothing":
 				mk().WritesNothing = true
+			case "pure-func-params":
+				mk().PureFuncParams = true
 			case "monitor-invariant":
 				// //verif:monitor-invariant <target>: this ghost predicate (parameters bound by name to the
 				// target's parameters) is asserted before and assumed after every (*sync.Cond).Wait in target
